@@ -114,6 +114,14 @@ async fn _validate_cas_object_from_async_read<R: AsyncRead + Unpin>(
             .log_error("uncompressed chunk length mismatch");
         }
 
+        // No footer, sent or generated, can describe more chunks than this.
+        if chunk_hash_and_size.len() >= CasObjectInfoV1::MAX_NUM_CHUNKS {
+            return Err(CasObjectError::FormatError(anyhow!(
+                "more than {} chunks exceed the 32 bit section offsets of the xorb footer",
+                CasObjectInfoV1::MAX_NUM_CHUNKS
+            )));
+        }
+
         let chunk_hash = merklehash::compute_data_hash(&uncompressed_chunk_data);
         chunk_hash_and_size.push(Chunk {
             hash: chunk_hash,
